@@ -125,6 +125,9 @@ func (cr *caseRun) after() {
 	if cr.profile == "c13" && cr.r.Chance(20) {
 		cr.statsViews()
 	}
+	if cr.profile == "c08" || cr.profile == "fine" {
+		cr.recordFiles()
+	}
 }
 
 // the generator's idea of which topics/channels exist follows the daemon (ephemeral
